@@ -19,8 +19,8 @@ CLAIMED = {
          'All 41 operation methods are called with every argument set that has at most k parameters away from a minimal valid call (per-parameter domains include unusual names, XML-illegal strings, every object kind), for three default namespaces and both pull modes of Iter*; the captured HTTP body must be well-formed XML 1.0, DTD-valid, and the CIMOperation/CIMMethod/CIMObject/Content-Length headers must agree with the body; tocimxmlstr() of every enumerated object spec is validated the same way. Exhaustive within the bounds.',
          'trusts lxml/libxml2 and tests/dtd/DSP0203_2.3.1.dtd; listener responses are validated by the C17 check', '§5 C03'),
  'C04': ('explicit-state breadth-first exploration of operation histories on the real client code against a CIM-XML server facade, differential against the direct (mock) path',
-         'Every event of a ~300-event alphabet (all intrinsic operations, open/pull/close sessions, InvokeMethod with every parameter type) is executed both through the real WBEMConnection HTTP/CIM-XML path (requests transport adapter -> facade that decodes with the server-side parse functions, executes on a mock repository and encodes the reply) and directly on an equal repository; breadth-first to depth 2 (3 in thorough) with deduplication on the canonical dump of both repositories and open sessions. After every event: decoded request == arguments of the direct entry point, outcome equal (result objects strictly, or CIMError code), repositories equal.',
-         'trusts mc/facade.py (DSP0200 parameter-type and return-element tables); both paths share the client-side _iparam_* argument normalisation, so a fault there that affects both paths equally is not visible to this differential oracle', '§5 C04'),
+         'Every event of a ~300-event alphabet (all intrinsic operations, open/pull/close sessions, InvokeMethod with every parameter type) is executed both through the real WBEMConnection HTTP/CIM-XML path (requests transport adapter -> facade that decodes with the server-side parse functions, executes on a mock repository and encodes the reply) and directly on an equal repository; breadth-first to depth 2 (3 in thorough) with deduplication on the canonical dump of both repositories and open sessions. After every event: decoded request == arguments of the direct entry point == the harness-owned independent DSP0200 marshalling of the caller arguments, outcome equal (result objects strictly, or CIMError code), documented path completion of results, repositories equal.',
+         'trusts mc/facade.py (DSP0200 parameter-type and return-element tables) and the harness-owned marshalling reference (expected_server_view: namespace resolution, object-name normalisation, None omitted) and completion rules (returned paths name the effective namespace), which make client-side faults visible that affect the HTTP path and the direct path equally', '§5 C04'),
  'C06': ('bounded exhaustive input enumeration on the real code (integer/real/datetime lattices, every constructor form, every (value, type) pair of the typed setters)',
          'Integer lattice x 8 types x all constructor call forms and bases; 71 value atoms x 16 types x 9 setter seams (cimvalue and the constructors/value setters of CIMProperty, CIMQualifier, CIMParameter, CIMQualifierDeclaration); the CIMDateTime field-boundary lattice x precision patterns x UTC offsets (all 2000 offsets on a reduced lattice in quick, on the full lattice in thorough), every string one edit away from a legal one, datetime/timedelta inputs; every exponent x 12 mantissa patterns of float32 and float64 through atomic_to_cim_xml and the parser in three seams. Oracles follow the statement: range, exact stored type or TypeError/ValueError, 25-character DSP0004 string that re-parses to an equal object (independent DSP0004 reader), bit-exact real round trip with INF/-INF/NaN spelling.',
          'trusts mc/refmodels/dsp0004_datetime.py; Real32 values are compared at float32 precision', '§5 C06'),
